@@ -40,6 +40,10 @@ func batch(seed uint64, tier, which string) []program {
 			ps = append(ps, p)
 		}
 		ps = append(ps, genIxProgram(r.Fork(), fmt.Sprintf("%d-%s-%d", seed, which, round), thorough, round%3 == 0))
+		for i := 0; i < 3; i++ {
+			dp := genDepsProgram(r.Fork())
+			ps = append(ps, program{Kind: "ixdeps", Deps: &dp})
+		}
 	}
 	return ps
 }
@@ -70,6 +74,10 @@ func targetFds(r *hk.Rand) program {
 }
 
 func run1(p program, race bool) (*history, error) {
+	if p.Kind == "ixdeps" {
+		res := runDepsProgram(*p.Deps, race)
+		return &history{Kind: "ixdeps", Cfg: "index+corpus, dependent blobs delivered by different clients", Clients: res.Clients, Race: race, Deps: &res}, nil
+	}
 	if p.Kind == "index" {
 		return runIxProgram(p, race)
 	}
@@ -173,10 +181,15 @@ const checkTimeout = 12 * time.Second
 
 type tally struct {
 	histories, linearizable, illegal, unknown, ops, raceHist int
+	depsProgs, depsOverlaps, depsInverted                    int
 }
 
 // checkHistory is the property's oracle on one recorded history.
 func checkHistory(r *hk.Run, h *history, t *tally) {
+	if h.Kind == "ixdeps" {
+		checkDeps(r, h, t)
+		return
+	}
 	w := newWorld(h.Pool)
 	t.histories++
 	src := "inproc"
@@ -307,6 +320,38 @@ func checkHistory(r *hk.Run, h *history, t *tally) {
 	}
 }
 
+// checkDeps forwards the verdict of the dependent-blob oracle (evaluated where the index lived).
+func checkDeps(r *hk.Run, h *history, t *tally) {
+	d := h.Deps
+	src := "inproc"
+	if h.Race {
+		src = "race"
+	}
+	r.ImplOnly("index-dependent-blobs-program")
+	r.Hit("hist:ixdeps:" + src)
+	t.depsProgs++
+	if d.BuildFail != "" {
+		r.Fail("harness:cannot-build-dependent-blobs", d.BuildFail, "", "", nil)
+		return
+	}
+	if d.Overlaps > 0 {
+		r.Hit("mech:index-pending-blob-coordination(dependent and dependency received concurrently)")
+		r.Distinct(fmt.Sprintf("ixdeps/c%d/overlap", d.Clients))
+	}
+	if d.Inverted > 0 {
+		r.Hit("ixdeps:dependent-acknowledged-before-its-dependency")
+		r.Distinct(fmt.Sprintf("ixdeps/c%d/inverted", d.Clients))
+	}
+	if d.Omitted > 0 {
+		r.Hit("ixdeps:a-blob-never-delivered")
+	}
+	t.depsOverlaps += d.Overlaps
+	t.depsInverted += d.Inverted
+	for _, p := range d.Problems {
+		r.Fail(p.Sig, p.Detail, p.Exp, p.Obs, nil)
+	}
+}
+
 func Run(r *hk.Run) {
 	r.Res.Rule = "a history counts when at least two calls of different clients overlapped in real time on the same blob (or with an enumerate/claims query) and one of them writes; key = store kind / #clients / set of overlapping call-kind pairs"
 	ystate.Store(r.Res.Seed*1315423911 + 7)
@@ -375,6 +420,7 @@ func Run(r *hk.Run) {
 		r.Hit("nested-rlock:deadlock-reproduced")
 	}
 
+	r.Note(fmt.Sprintf("dependent-blob index programs=%d (dependent/dependency receives overlapping: %d pairs; dependent acknowledged first: %d pairs), each compared at quiescence with a sequential feed", t.depsProgs, t.depsOverlaps, t.depsInverted))
 	r.Note(fmt.Sprintf("histories=%d (under -race: %d) linearizable=%d not-linearizable=%d undecided=%d calls=%d; in-process batch %.1fs",
 		t.histories, t.raceHist, t.linearizable, t.illegal, t.unknown, t.ops, inprocWall.Seconds()))
 }
